@@ -910,3 +910,123 @@ def gcm_open_seal(api):
                 api.oblige(o2.st, 'plaintext-equal',
                            forall2(lambda j, y: S.implies(16 * j + y < n, at(o2.val, 16 * j + y) == at(p, 16 * j + y)),
                                    ctr_nblocks(n)))
+
+
+# ---------------------------------------------------------------------------
+# AES-CCM (RFC 3610), L = 15 - len(nonce) = 3, M = tagLength in {8, 16}
+#   B_0 = flags || N || l(m),  flags = 64*Adata + 8*((M-2)/2) + (L-1)
+#   a-encoding: [l(a)]_2 | FF FE [l(a)]_4 | FF FF [l(a)]_8, then a, zero-padded to 16;  then m zero-padded to 16
+#   X_1 = E(B_0), X_{i+1} = E(X_i xor B_i)  (== CBC with zero IV),  T = first M bytes of the last X
+#   A_i = (L-1) || N || [i]_L,  S_i = E(A_i),  U = T xor first M bytes of S_0,  C = m xor (S_1 S_2 ...)
+import tlslite.utils.aesccm as CCMMOD
+import ast as _ast
+
+AES_CCM = T.obj(CCMMOD.AESCCM, _ctr=AES_CTR, _cbc=AES_CBC, tagLength=T.int())
+
+
+def _ccm_setup(ex, st, ns):
+    """both mode objects are built from the same key (AESCCM.__init__)"""
+    g = st.env['self']
+    rc = st.heap[(st.heap[(g.oid, '_ctr')].oid, 'rijndael')]
+    rb = st.heap[(st.heap[(g.oid, '_cbc')].oid, 'rijndael')]
+    st.heap[(rb.oid, 'k')] = st.heap[(rc.oid, 'k')]
+
+
+def pad16(x):
+    """x zero-padded on the right to a multiple of 16 bytes (VSeq)"""
+    n = S.len_(x)
+    return S.cat(x, S.rep(0, (16 - n % 16) % 16))
+
+
+def _padlen(n, size):
+    return VInt(z3.If(n.t % size.t == 0, 0, size.t - n.t % size.t))
+
+
+def _pad_apply(c, ex, args, kwargs, st, fr, node):
+    """AESCCM._pad_with_zeroes(data, size) extends the caller's bytearray IN PLACE (bytearray `+=`): modelled by
+    rebinding the caller's variable; only call sites passing a plain local name are supported"""
+    data, size = args[-2], ex._as_int(args[-1])
+    argn = node.args[0]
+    if not isinstance(argn, _ast.Name) or not isinstance(data, VSeq):
+        raise Unsupported('_pad_with_zeroes on a non-local argument')
+    ex.oblige(st, 'call:_pad_with_zeroes:requires@L%d' % node.lineno, size.t >= 1, kind='call-requires')
+    new = VSeq(smt.s_concat(data.t, smt.s_rep(z3.IntVal(0), _padlen(VInt(slen(data.t)), size).t)), 'byte', data.pytype)
+    outs = ex.assign(_ast.Name(id=argn.id, ctx=_ast.Store()), new, st, fr)
+    return [Outcome('normal', o.st, VNone()) for o in outs]
+
+
+contract(U + 'aesccm.py:AESCCM._pad_with_zeroes',
+         params={'data': T.bytes(), 'size': T.int()},
+         requires=lambda ns: ns.size >= 1,
+         result=T.none(),
+         ensures=lambda ns: S.seq_eq(ns.final('data'),
+                                     S.cat(ns.data, S.rep(0, _padlen(S.len_(ns.data), ns.size)))),
+         apply_fn=_pad_apply,
+         prop=PROP,
+         doc='appends the minimal number (0..size-1) of zero bytes that makes the length a multiple of size; the '
+             'argument is extended in place')
+
+
+def ccm_flags(M, adata, L=3):
+    return 64 * S.ite(adata, 1, 0) + 8 * ((M - 2) / 2) + (L - 1)
+
+
+def ccm_b0(M, nonce, aad, msg):
+    return S.cat(S.byte(ccm_flags(M, S.len_(aad) > 0)), nonce, S.be(S.len_(msg), 3))
+
+
+def ccm_blocks_cases(M, nonce, aad, msg):
+    """[(condition, B)] -- the CBC-MAC input B = B_0 || encoded a || m (each part zero-padded), one entry per
+    case of the a-length encoding / empty message (case split kept at the boolean level)"""
+    la = S.len_(aad)
+    b0 = ccm_b0(M, nonce, aad, msg)
+    encs = [(la == 0, S.empty()),
+            ((la > 0) & (la < 0xFF00), S.be(la, 2)),
+            ((la >= 0xFF00) & (la < (1 << 32)), S.cat([0xFF, 0xFE], S.be(la, 4))),
+            (la >= (1 << 32), S.cat([0xFF, 0xFF], S.be(la, 8)))]
+    out = []
+    for cond, enc in encs:
+        head = pad16(S.cat(b0, enc, aad))
+        out.append((cond & (S.len_(msg) == 0), head))
+        out.append((cond & (S.len_(msg) > 0), S.cat(head, pad16(msg))))
+    return out
+
+
+ZERO16 = VSeq(smt.s_rep(z3.IntVal(0), z3.IntVal(16)), 'byte')
+
+
+def ccm_mac_is(k, M, nonce, aad, msg, t):
+    """t == T: the first M bytes of the last CBC block of B under a zero IV"""
+    cs = []
+    for cond, B in ccm_blocks_cases(M, nonce, aad, msg):
+        last = cbc_block(k, ZERO16, B, S.len_(B) / 16 - 1)
+        cs.append(S.implies(cond, S.And(S.len_(t) == M, forall1(lambda q: at(t, q) == at(last, q), 0, M))))
+    return S.And(*cs)
+
+
+def _ccm_k(ns):
+    return ns.f(ns.f(ns.f(ns.self, '_ctr'), 'rijndael'), 'k').t
+
+
+CCM_MSG_MAX = (1 << 24) - 1         # l(m) < 2^(8L), L = 3
+CCM_AAD_MAX = (1 << 61)             # l(a) < 2^64 (RFC 3610); kept below 2^61 like GCM
+
+
+def _ccm_common_req(ns):
+    return S.And(S.Or(ns.f(ns.self, 'tagLength') == 8, ns.f(ns.self, 'tagLength') == 16),
+                 ns.f(ns.f(ns.self, '_ctr'), '_counter_bytes') == 0,
+                 S.len_(ns.f(ns.f(ns.self, '_ctr'), '_counter')) == 16)
+
+
+contract(U + 'aesccm.py:AESCCM._cbcmac_calc',
+         params={'self': AES_CCM, 'nonce': T.bytes(), 'aad': T.bytes(), 'msg': T.bytes()}, setup=_ccm_setup,
+         requires=lambda ns: S.And(_ccm_common_req(ns), S.len_(ns.nonce) == 12, S.len_(ns.msg) <= CCM_MSG_MAX,
+                                   S.len_(ns.aad) < CCM_AAD_MAX),
+         result=T.bytes(), modifies=[('self._cbc', 'IV')],
+         ensures=lambda ns: S.And(S.is_bytes(ns.result), S.len_(ns.result) == ns.f(ns.self, 'tagLength'),
+                                  ccm_mac_is(_ccm_k(ns), ns.f(ns.self, 'tagLength'), ns.nonce, ns.aad, ns.msg,
+                                             ns.result)),
+         prop=PROP,
+         doc='RFC 3610 2.2: T = first M bytes of the CBC-MAC (zero IV) over B_0 || l(a)-encoding || a || 0* || m || 0* '
+             'with B_0 = flags || nonce || [l(m)]_3, flags = 64*[a non-empty] + 8*((M-2)/2) + 2; a-length encoded on '
+             '2 bytes below 2^16-2^8, as FFFE+4 bytes below 2^32, else FFFF+8 bytes')
